@@ -29,7 +29,7 @@ def build_info(model_info, dtype, channels, encoding, block=None, sharding=None,
             "data_type": dtype, "num_channels": channels, "scales": scales}
 
 
-def make_array(rng, shape, dtype, smooth=False):
+def make_array(rng, shape, dtype, smooth=False, sparse=False):
     shape = tuple(max(1, int(x)) for x in shape)
     n = int(np.prod(shape))
     if smooth:
@@ -40,8 +40,14 @@ def make_array(rng, shape, dtype, smooth=False):
     if dtype == "float32":
         return rng.standard_normal(n).astype("float32").reshape(shape)
     info = np.iinfo(dtype)
-    choice = rng.integers(0, 3)
-    if choice == 0:
+    choice = 3 if sparse else rng.integers(0, 4)
+    if choice == 3:
+        # sparse: background with a few labelled voxels (short encodings)
+        a = np.zeros(n, dtype=np.uint64)
+        k = int(rng.integers(0, 3))
+        if k:
+            a[rng.integers(0, n, size=k)] = rng.integers(1, info.max, size=k, dtype=np.uint64, endpoint=True)
+    elif choice == 0:
         a = rng.integers(0, min(info.max, 7) + 1, size=n, dtype=np.uint64)
     elif choice == 1:
         a = rng.integers(0, info.max, size=n, dtype=np.uint64, endpoint=True)
@@ -88,7 +94,7 @@ NARROWER = {"uint64": ["uint32", "uint16", "uint8"], "uint32": ["uint16", "uint8
 
 
 def run_history(workdir, model_info, ops, kind, dtype, channels, encoding, rng,
-                block=None, enc_opts=None, per_scale=None, prior=False, narrow=False):
+                block=None, enc_opts=None, per_scale=None, prior=False, narrow=False, sparse=False):
     """per_scale: [(encoding, block)] per scale (mixed encodings in one dataset);
     prior: the directory first holds ANOTHER dataset, opened once through the same
     accessor object, then re-created in place (overwrite_info); re-opens then also
@@ -104,7 +110,7 @@ def run_history(workdir, model_info, ops, kind, dtype, channels, encoding, rng,
     if kind["acc"] == "sharded":
         sharding = {"@type": "neuroglancer_uint64_sharded_v1", "minishard_bits": kind["mb"],
                     "shard_bits": kind["sb"], "preshift_bits": kind["pb"], "hash": "identity",
-                    "minishard_index_encoding": kind["enc"], "data_encoding": kind["enc"]}
+                    "minishard_index_encoding": kind.get("ienc", kind["enc"]), "data_encoding": kind["enc"]}
     info = build_info(model_info, dtype, channels, encoding, block, sharding, per_scale)
     events = []
     accs = []
@@ -127,8 +133,15 @@ def run_history(workdir, model_info, ops, kind, dtype, channels, encoding, rng,
                 sc0 = model_info[0]
                 c0 = [0, min(sc0["chunks"][0][0], sc0["size"][0]), 0, min(sc0["chunks"][0][1], sc0["size"][1]),
                       0, min(sc0["chunks"][0][2], sc0["size"][2])]
-                pw.write_chunk(make_array(rng, (1, c0[5], c0[3], c0[1]), pinfo["data_type"]), "s1", tuple(c0))
-                pio.get_IO_for_existing_dataset(acc).read_chunk("s1", tuple(c0))
+                try:
+                    pw.write_chunk(make_array(rng, (1, c0[5], c0[3], c0[1]), pinfo["data_type"]), "s1", tuple(c0))
+                    pio.get_IO_for_existing_dataset(acc).read_chunk("s1", tuple(c0))
+                except Exception as e:      # recorded: an on-grid write / read of the earlier dataset failed
+                    events.append({"op": "write", "s": 1, "c": list(c0), "shape": [1, c0[5], c0[3], c0[1]],
+                                   "dt": str(np.dtype(dtype).name), "bytes": [], "layout": "C",
+                                   "passed_as": pinfo["data_type"],
+                                   "res": "assert" if isinstance(e, AssertionError) else "exc",
+                                   "cls": type(e).__name__})
                 writer = pio.get_IO_for_new_dataset(info, acc, overwrite_info=True, encoder_options=enc_opts or {})
             else:
                 writer = pio.get_IO_for_new_dataset(info, acc, encoder_options=enc_opts or {})
@@ -159,7 +172,7 @@ def run_history(workdir, model_info, ops, kind, dtype, channels, encoding, rng,
                 if op["op"] == "write":
                     shape = (channels, c[5] - c[4], c[3] - c[2], c[1] - c[0])
                     lossy_k = 1 <= op["s"] <= len(lossy) and lossy[op["s"] - 1]
-                    arr = make_array(rng, shape, dtype, smooth=lossy_k)
+                    arr = make_array(rng, shape, dtype, smooth=lossy_k, sparse=sparse)
                     as_dataset = arr
                     if narrow and not lossy_k and dtype in NARROWER and rng.random() < 0.4:
                         nd = NARROWER[dtype][int(rng.integers(0, len(NARROWER[dtype])))]
